@@ -216,6 +216,11 @@ EXTRA = [
     "1 in (f for f in [r.a.upper]) or f()", "r.b in (f for f in [r.a.m]) and f(1)", "(r.z in (g for g in r.a)) == g.m()",
     "1 not in (f() for f in [r.a.m])", "r.a in (v.m for v in r.b if v.n) or v()", "1 in (f for f in [lower]) or f(r.a) == 1",
     "(f for f in [r.a.m]) in [1] or f()", "str((f() for f in [r.a.m])) == ''", "1 == (f() for f in [r.a.m])",
+    # the callee is resolved ONCE, before the arguments: evaluating the arguments re-binds the callee's name (a field-type name
+    # is not in the namespace, so a generator may use it as its variable) - the object that was judged must be the one called
+    "string(1 in (1 for string in [r.a.m]))",
+    "uri(r.z in (0 for uri in [r.a.m]))", "path(1 in (0 for path in [r.a.m]), 2)", "varint(1 in (0 for varint in [r.a]))",
+    "string(1 not in (v for string in [r.a.m] for v in [string]))", "net.ipaddress(1 in (0 for net in [r.a]))",
     # dunder access spelled in every position
     "r.__dict__", "r.a.__class__", "lower(r.a).__class__", "'a'.__class__", "(r.a, 1).__len__", "r.a.__call__()",
     "Type.__class__", "net.__class__", "lower.__globals__", "str.__subclasses__()",
@@ -249,6 +254,16 @@ REAL_HELPER_DUNDER = [
     "field_contains(r, ['__dict__'], ['x'])", "field_regex(r, ['s', '__slots__'], 'nomatch')", "field_regex(r, ['__doc__'], '.*')",
     "field_contains(r, ['s', '__doc__'], ['nomatch'], word_boundary=True)",
     "any(field_equals(r, [n], ['nomatch']) for n in ['s', '__class__'])",
+]
+
+
+# checked by the oracle on the implementation only (a generator object consumed through a VARIABLE is outside the model, which
+# follows generator expressions only where they are written)
+IMPL_ONLY = [
+    "any(string(1 in g) for g in [(1 for string in [r.a.m])])", "any(uri(r.b in g) for g in [(0 for uri in [r.a.m])])",
+    "all(path(g in [1], 1 in g) for g in [(1 for path in [r.a.m])])",
+    "any(string(v) for g in [(2 for string in [r.a.m])] for v in [1 in g])",
+    "any(lower(1 in g) == f() for g in [(1 for f in [r.a.m])])",
 ]
 
 
@@ -364,7 +379,7 @@ def explore(ctx, report=True):
     kf = {f["id"]: f for f in core.known_for("C09")}
     terms, metas = [], []
     field_lists = {e: fl for e, fl in HELPER_DUNDER}
-    for expr in expressions(ctx) + [e for e, _ in HELPER_DUNDER]:
+    for expr in expressions(ctx) + [e for e, _ in HELPER_DUNDER] + IMPL_ONLY:
         out, log = run_impl(expr)
         if out is None:
             continue
@@ -389,6 +404,8 @@ def explore(ctx, report=True):
             return None, None, True
         reads = [(e[1], e[2]) for e in log if e[0] == "getattr"]
         code = {"Ok": 0, "InvalidOperation": 1, "TypeErr": 2, "KeyErr": 3, "AttrErr": 4}.get(out, 5)
+        if expr in IMPL_ONLY:
+            continue
         head = "case_ok" if expr not in field_lists else "case_ok_f %s" % clist([cstr(x) for x in field_lists[expr]])
         terms.append("(%s %s %d %s)" % (head, to_node(tree), code, clist(["(%s, %s)" % (cstr(p), cstr(n)) for p, n in reads])))
         metas.append(dict(expr=expr, outcome=out, reads=reads))
